@@ -565,3 +565,14 @@ Lemma leb_1_of_nat a : (1 <=? Z.of_nat a) = (0 <? a)%nat.
 Proof. destruct (Z.leb_spec 1 (Z.of_nat a)), (Nat.ltb_spec 0 a); try reflexivity; lia. Qed.
 Ltac pos_cond := rewrite ?Z.gtb_ltb, ?Z.geb_leb; first [rewrite ltb_0_of_nat | rewrite leb_1_of_nat].
 Ltac pos_cond_in H := rewrite ?Z.gtb_ltb, ?Z.geb_leb in H; first [rewrite ltb_0_of_nat in H | rewrite leb_1_of_nat in H].
+
+(* a goal `cond = true / false` about integer comparisons, whatever the spelling of the condition in the source
+   (`i < N`, `N > i`, `i != N`, `i > 0`, `i >= 1`, ..): case analysis on every comparison, the rest is linear arithmetic *)
+Ltac zbool_lia :=
+  cbv beta iota; rewrite ?Z.gtb_ltb, ?Z.geb_leb;
+  repeat match goal with
+         | |- context [?a <? ?b] => destruct (Z.ltb_spec a b)
+         | |- context [?a <=? ?b] => destruct (Z.leb_spec a b)
+         | |- context [?a =? ?b] => destruct (Z.eqb_spec a b)
+         end;
+  cbn [negb andb orb]; first [reflexivity | lia].
